@@ -17,6 +17,8 @@ def runLine (line : String) : String :=
   match words line with
   | ["U", g, n] => match table g n with | some rs => showRanges (clip rs) | none => "none"
   | ["N", n] => match byName n with | some (g, c) => s!"{g} {c}" | none => "none"
+  -- the generator's built-in rule for an advertised property reads the table of the same name
+  | ["B", n] => if advertised.contains n ∧ genUnicodeLoop then "{state.match_char_by(::pest::unicode::" ++ n ++ ")}" else "not-emitted"
   | ["A"] => " ".intercalate advertised
   | _ => "bad-op"
 
